@@ -1097,6 +1097,8 @@ func counterSetBack(r *rand.Rand, o *hout.Out) {
 	case <-time.After(2 * time.Second):
 	}
 	id := fix.StorageID{Sender: "ME", Target: "PEER", Side: fix.Outgoing}
+	latest := map[int][]byte{} // number -> what was most recently sent under it
+	lastQ := 0
 	check := func(phase string, i int) bool {
 		m := fixgen.NewMarketDataRequest().SetMDReqID(fmt.Sprintf("%s-%d", phase, i))
 		_ = s.Send(m)
@@ -1118,6 +1120,8 @@ func counterSetBack(r *rand.Rand, o *hout.Out) {
 			o.Fail("C19", "sent-but-not-saved-under-its-number", fmt.Sprintf("%s: 34=%d left the session as %q; the store holds %q under %d (err=%v)", phase, q, w, sb, q, err))
 			return false
 		}
+		latest[q] = w
+		lastQ = q
 		return true
 	}
 	k := 2 + r.Intn(5)
@@ -1137,6 +1141,19 @@ func counterSetBack(r *rand.Rand, o *hout.Out) {
 	for i := 0; i < 1+r.Intn(4); i++ {
 		if !check(fmt.Sprintf("after-set-back-to-%d", back), i) {
 			break
+		}
+	}
+	// C10 across the set-back: a number that was used again is retransmitted as the message most recently sent under it
+	if lastQ > 0 {
+		h.ServeIncoming(frame(body([]fld{{"35", "2"}, {"49", "PEER"}, {"56", "ME"}, {"34", "2"}, {"52", "20240101-00:00:00.000"}, {"7", strconv.Itoa(lastQ)}, {"16", strconv.Itoa(lastQ)}})))
+		select {
+		case w := <-h.Outgoing():
+			if !bytes.Equal(w, latest[lastQ]) {
+				o.Fail("C10", "resent-differs-from-latest-transmission", fmt.Sprintf("counter set back to %d of %d: ResendRequest %d..%d retransmitted %q, the message last sent under that number was %q", back, k, lastQ, lastQ, w, latest[lastQ]))
+			}
+			o.Nontrivial("C10", fmt.Sprintf("resend after set back %d of %d: %d", back, k, lastQ))
+		case <-time.After(2 * time.Second):
+			o.Fail("C10", "resent-count", fmt.Sprintf("counter set back to %d of %d: ResendRequest %d..%d was not answered", back, k, lastQ, lastQ))
 		}
 	}
 	o.Nontrivial("C19", fmt.Sprintf("set back %d of %d", back, k))
